@@ -973,6 +973,14 @@ int main(int argc, char** argv)
       fprintf(out, "{\"e\":\"RelocAudit\",\"ac_t\":%ld,\"ac_m\":%ld,\"ac_bad\":%ld,\"rid\":%d,\"relocs\":%ld,\"null\":%ld,\"pointers\":%ld,\"unregistered\":%ld,\"dangling\":%ld,\"outside\":%ld,\"misaligned_slots\":%ld,\"first_unregistered\":[%s],\"first_dangling\":[%s]}\n",
               ac_t, ac_m, ac_bad, rr, nreloc, null_slots, candidates, unregistered, dangling, outside, misaligned, firsts, firstd);
     }
+    else if (!strcmp(op, "rdisable"))
+    {
+      /* rdisable <rules> <rule index>: yr_rule_disable on the rule with that index of the compiled rules */
+      NEED(2);
+      YR_RULES* rs = rulesets[slot(tok[1], MAXSLOT)];
+      int ri = atoi(tok[2]);
+      if (rs && ri >= 0 && ri < (int) rs->num_rules) yr_rule_disable(&rs->rules_table[ri]);
+    }
     else if (!strcmp(op, "rinfo")) { NEED(1); if (rulesets[slot(tok[1], MAXSLOT)]) log_rules_info(slot(tok[1], MAXSLOT)); }
     else if (!strcmp(op, "cdestroy"))
     {
